@@ -603,7 +603,9 @@ pub fn gen_run(rng: &mut Rng, n: usize, k: &RunKnobs) -> RunSpec {
         strict_waker: rng.chance(1, 2),
         may_abort: k.allow_abort && rng.chance(1, 3),
         may_forget: k.allow_forget && api.is_stream() && rng.chance(1, 6),
-        coop: false,
+        // tokio's cooperative budget only bites when many operations happen in one
+        // poll: mostly wide graphs
+        coop: if n >= 25 { rng.chance(1, 3) } else { rng.chance(1, 24) },
     }
 }
 
@@ -640,6 +642,7 @@ pub fn gen_sched(rng: &mut Rng, rs: &RunSpec, prop: Prop) -> SchedParams {
         forget_64: if rs.may_forget { 4 } else { 0 },
         drop_sender_64: if rs.may_drop_sender { 4 } else { 0 },
         multi_drop: rng.chance(1, 2),
+        burst_64: [0, 0, 4, 16][rng.below(4)],
     };
     if prop == Prop::C06 {
         // the makespan oracle needs the virtual-time discipline in a good share of runs
@@ -648,6 +651,7 @@ pub fn gen_sched(rng: &mut Rng, rs: &RunSpec, prop: Prop) -> SchedParams {
             p.order = Order::VirtualTime;
             p.spurious_16 = 0;
             p.mid_16 = 0;
+            p.burst_64 = 0;
         }
     }
     p
@@ -700,6 +704,7 @@ pub fn gen_case(prop: Prop, rng: &mut Rng) -> GenCase {
             knobs.apis = apis_for(&call_fams, false);
         }
         Prop::C05 => {
+            wide_pct = 8;
             knobs.apis = apis_for(&[Stream], false);
             knobs.allow_abort = true;
             knobs.allow_forget = true;
